@@ -15,6 +15,7 @@ from propcache.api import under_cached_property as cached_property
 from ._parse import (
     USES_AUTHORITY,
     SplitURLType,
+    _check_netloc,
     make_netloc,
     split_netloc,
     split_url,
@@ -443,6 +444,10 @@ class URL:
         self._scheme = scheme
         _host: Union[str, None] = None
         if authority:
+            if not authority.isascii():
+                # The same screen as for a parsed URL: characters whose NFKC
+                # form contains "/", "?", "#", "@" or ":" (IDNA normalizes).
+                _check_netloc(authority)
             user, password, _host, port = split_netloc(authority)
             _host = _encode_host(_host, validate_host=False) if _host else ""
             if "[" in authority.rpartition("@")[2] and "[" not in _host:
